@@ -55,6 +55,16 @@ def _grid_pos(rng, tshape, shape, scale):
     return i + (c - np.floor(c))  # integer (odd side) or half-integer (even side)
 
 
+def _comp(rng, tmpl, scale, case):
+    """The component image as an array or as an ImageProvider that yields the same array at the simulator's scale."""
+    if rng.random() < 0.4:
+        from acryo import pipe
+
+        case.count("provider_components")
+        return pipe.from_array(tmpl, original_scale=scale)
+    return tmpl
+
+
 def run(case):
     from acryo import TomogramSimulator, SubtomogramLoader, Molecules
 
@@ -78,7 +88,7 @@ def run(case):
             poss.append(g)
         mole = Molecules(np.array(poss) * scale)
         sim = TomogramSimulator(order=order, scale=scale)
-        sim.add_molecules(mole, tmpl)
+        sim.add_molecules(mole, _comp(rng, tmpl, scale, case))
         vol = sim.simulate(tshape)
         if nm >= 2:
             case.nontrivial(("exact", p["iseed"]))
@@ -123,13 +133,13 @@ def run(case):
         tmpl2 = gen.render_box(shape, gen.make_blobs(rng, shape, sigma=sig, margin=marg))
         split = int(rng.integers(1, nm))
         simA = TomogramSimulator(order=order, scale=scale)
-        simA.add_molecules(Molecules(pos[:split], R[:split]), tmpl, name="a")
-        simA.add_molecules(Molecules(pos[split:], R[split:]), tmpl2, name="b")
+        simA.add_molecules(Molecules(pos[:split], R[:split]), _comp(rng, tmpl, scale, case), name="a")
+        simA.add_molecules(Molecules(pos[split:], R[split:]), _comp(rng, tmpl2, scale, case), name="b")
         va = simA.simulate(tshape)
         perm = rng.permutation(split)
         simB = TomogramSimulator(order=order, scale=scale)
-        simB.add_molecules(Molecules(pos[split:], R[split:]), tmpl2, name="b")
-        simB.add_molecules(Molecules(pos[:split][perm], R[:split][perm]), tmpl, name="a")
+        simB.add_molecules(Molecules(pos[split:], R[split:]), _comp(rng, tmpl2, scale, case), name="b")
+        simB.add_molecules(Molecules(pos[:split][perm], R[:split][perm]), _comp(rng, tmpl, scale, case), name="a")
         vb = simB.simulate(tshape)
         simC = TomogramSimulator(order=order, scale=scale)
         for j in range(nm):
@@ -146,6 +156,11 @@ def run(case):
 
     if mode == "clip":
         tshape = tuple(int(s + rng.integers(2, 10)) for s in shape)
+        if rng.random() < 0.3:
+            # a volume thinner than the template along one axis: the box overhangs both faces at once
+            ax_t = int(rng.integers(0, 3))
+            tshape = tuple(int(rng.integers(2, shape[a] - 1)) if a == ax_t else t for a, t in enumerate(tshape))
+            case.count("thin_volumes")
         nm = int(rng.integers(1, 5))
         pos = []
         for _ in range(nm):
@@ -164,7 +179,7 @@ def run(case):
                                          else [0, 0, 0, 1.0] for _ in range(nm)]))
         pad = int(rng.integers(shape[0] + 2, shape[0] + 8))
         try:
-            simA = TomogramSimulator(order=order, scale=scale).add_molecules(Molecules(pos * scale, R), tmpl)
+            simA = TomogramSimulator(order=order, scale=scale).add_molecules(Molecules(pos * scale, R), _comp(rng, tmpl, scale, case))
             va = simA.simulate(tshape)
             simB = TomogramSimulator(order=order, scale=scale).add_molecules(Molecules((pos + pad) * scale, R), tmpl)
             big = simB.simulate(tuple(s + 2 * pad for s in tshape))
@@ -196,7 +211,7 @@ def run(case):
         R = gen.random_rotation(rng) if rng.random() < 0.8 else Rotation.identity()
         ppx = rng.uniform(np.asarray(shape) / 2 + 3, np.asarray(tshape) - np.asarray(shape) / 2 - 4)
         mole = Molecules(ppx[None] * scale, Rotation.from_quat(R.as_quat()[None]))
-        sim = TomogramSimulator(order=order, scale=scale).add_molecules(mole, tmpl)
+        sim = TomogramSimulator(order=order, scale=scale).add_molecules(mole, _comp(rng, tmpl, scale, case))
         vol = sim.simulate(tshape).astype(np.float64)
         truth = gen.render_world(tshape, blobs, ppx, R, dtype=None)
         case.nontrivial(("general", p["iseed"]))
@@ -231,7 +246,7 @@ def run(case):
         pos = np.stack([rng.uniform(shape[0], shape[0] + zmax, nm), rng.uniform(0, yx[0] - 1, nm),
                         rng.uniform(0, yx[1] - 1, nm)], axis=1)
         R = Rotation.from_quat(np.stack([gen.random_rotation(rng).as_quat() for _ in range(nm)]))
-        sim = TomogramSimulator(order=order, scale=scale).add_molecules(Molecules(pos * scale, R), tmpl)
+        sim = TomogramSimulator(order=order, scale=scale).add_molecules(Molecules(pos * scale, R), _comp(rng, tmpl, scale, case))
         Z = int(np.ceil(pos[:, 0].max() + sum(shape))) + 2
         v3 = sim.simulate((Z,) + yx)
         v2 = sim.simulate_2d(yx)
